@@ -38,7 +38,11 @@ Definition spec_prov_reply (confirmed : bool) (browse ptr srv txt : record) (m :
             ((if sb then [browse] else []) ++ (if sp then [ptr] else []) ++ (if ss then [srv] else []) ++ (if st then [txt] else [])))
   else None.
 
-(* ------------------------------------------------------------------ the acceptor *)
+(* ------------------------------------------------------------------ the acceptor
+   [focus] = 10, 20, 30, 40 restricts rejections to one property (the others' checks then let the trace pass and the
+   acceptor carries on with the state it would have had), 0 = all *)
+Definition in_focus (focus c : N) : bool := (focus =? 0)%N || (c / 10 =? focus / 10)%N || (c <? 10)%N.
+Definition soft {A} (focus c : N) (fallback : A) : A + N := if in_focus focus c then inr c else inl fallback.
 Record vmon := mkVmon {
   vm_reg_names : list bytes;          (* host names seen registered *)
   vm_host_reg : bool; vm_host_name : bytes;
@@ -77,21 +81,21 @@ Fixpoint remove_first (f : record -> bool) (l : list record) : option (list reco
 (* 10 response before registration+update+confirmation   11 nonzero-TTL record not under the confirmed instance name
    12 goodbye for a record never announced (or already withdrawn)   13 SRV target was never a registered hostname
    14 confirmation (first announcement under a name) without a full undisturbed probe for it *)
-Fixpoint c10_records (q : vmon) (rs : list record) (ann : list record) : list record + N :=
+Fixpoint c10_records (focus : N) (q : vmon) (rs : list record) (ann : list record) : list record + N :=
   match rs with
   | [] => inl ann
   | r :: rs' =>
-      if (r_type r =? 33)%N && negb (mem_bytes (bs_data (r_target r)) (vm_reg_names q)) then inr 13%N else
+      if (r_type r =? 33)%N && negb (mem_bytes (bs_data (r_target r)) (vm_reg_names q)) && in_focus focus 13 then inr 13%N else
       if (r_ttl r =? 0)%N then
         match remove_first (same_data r) ann with
-        | Some ann' => c10_records q rs' ann'
-        | None => inr 12%N
+        | Some ann' => c10_records focus q rs' ann'
+        | None => if in_focus focus 12 then inr 12%N else c10_records focus q rs' ann
         end
       else
         match rec_instance r, vm_conf q with
-        | Some i, Some c => if bytes_eqb (bs_data i) c then c10_records q rs' ann else inr 11%N
-        | Some _, None => inr 11%N
-        | None, _ => c10_records q rs' ann
+        | Some i, Some c => if bytes_eqb (bs_data i) c || negb (in_focus focus 11) then c10_records focus q rs' ann else inr 11%N
+        | Some _, None => if in_focus focus 11 then inr 11%N else c10_records focus q rs' ann
+        | None, _ => c10_records focus q rs' ann
         end
   end.
 
@@ -102,18 +106,19 @@ Definition response_instance (m : message) : option bytes :=
   end.
 
 (* entitlement: an announcement under a new name needs the latest probe to be for it, >= 2000 ms old, undisturbed *)
-Definition entitle (q : vmon) (t : Z) (m : message) : vmon + N :=
+Definition entitle (focus : N) (q : vmon) (t : Z) (m : message) : vmon + N :=
   match response_instance m with
   | None => inl q
   | Some n =>
       if match vm_conf q with Some c => bytes_eqb c n | None => false end then inl q else
       match vm_probe q with
       | Some (pn, t') =>
-          if bytes_eqb pn n && negb (vm_disturbed q) && (t' + 2000 <=? t)
+          if (bytes_eqb pn n && negb (vm_disturbed q) && (t' + 2000 <=? t)) || negb (in_focus focus 14)
           then inl (mkVmon (vm_reg_names q) (vm_host_reg q) (vm_host_name q) (vm_updated q) (vm_last_req q) (vm_probe q)
                            (vm_disturbed q) (Some n) (vm_announced q) (vm_served q) (vm_listener q) (vm_alive q) (vm_now q))
           else inr 14%N
-      | None => inr 14%N
+      | None => soft focus 14 (mkVmon (vm_reg_names q) (vm_host_reg q) (vm_host_name q) (vm_updated q) (vm_last_req q) (vm_probe q)
+                                       (vm_disturbed q) (Some n) (vm_announced q) (vm_served q) (vm_listener q) (vm_alive q) (vm_now q))
       end
   end.
 
@@ -122,15 +127,15 @@ Definition set_ann (q : vmon) (ann : list record) (served : option (record * rec
          (vm_conf q) ann served lis (vm_alive q) (vm_now q).
 
 (* a provider response (announcement, goodbye or answer) *)
-Definition c10_response (q : vmon) (t : Z) (m : message) (multicast : bool) : vmon + N :=
-  if negb (vm_updated q) || (match vm_reg_names q with [] => true | _ => false end) then inr 10%N else
-  match entitle q t m with
+Definition c10_response (focus : N) (q : vmon) (t : Z) (m : message) (multicast : bool) : vmon + N :=
+  if (negb (vm_updated q) || (match vm_reg_names q with [] => true | _ => false end)) && in_focus focus 10 then inr 10%N else
+  match entitle focus q t m with
   | inr c => inr c
   | inl q1 =>
-      match vm_conf q1 with
-      | None => inr 10%N
-      | Some _ =>
-          match c10_records q1 (m_records m) (vm_announced q1) with
+      match vm_conf q1, in_focus focus 10 with
+      | None, true => inr 10%N
+      | _, _ =>
+          match c10_records focus q1 (m_records m) (vm_announced q1) with
           | inr c => inr c
           | inl ann =>
               if multicast then
@@ -138,6 +143,14 @@ Definition c10_response (q : vmon) (t : Z) (m : message) (multicast : bool) : vm
                 let fresh := filter (fun r => negb (r_ttl r =? 0)%N) (m_records m) in
                 let ann' := filter (fun a => negb (existsb (fun r => bs_eqb (r_name r) (r_name a) && (r_type r =? r_type a)%N) fresh)) ann ++ fresh in
                 let lis := fold_left (fun l r => ref_add t r l) (m_records m) (vm_listener q1) in
+                (* 42: records stop being served (other instance name, type or SRV target) without a goodbye for them *)
+                let unwithdrawn := match m_records m, vm_served q1 with
+                                   | [p; s; x], Some (_, p0, s0, _) =>
+                                       negb (r_ttl p =? 0)%N &&
+                                       negb (bs_eqb (r_name s) (r_name s0) && bs_eqb (r_name p) (r_name p0) && bs_eqb (r_target s) (r_target s0))
+                                   | _, _ => false
+                                   end in
+                if unwithdrawn && in_focus focus 42 then inr 42%N else
                 let served := match m_records m with
                               | [p; s; x] => if (r_ttl p =? 0)%N then None
                                              else Some (set_target (r_name p) (set_type 12 (set_name (Some BROWSE) default_record)), p, s, x)
@@ -164,32 +177,32 @@ Definition c11_expected (q : vmon) (o : aop papi) : option message :=
   | _, _ => None
   end.
 
-Fixpoint vmon_outs (q : vmon) (o : aop papi) (expect : option message) (outs : list out) : (vmon * option message) + N :=
+Fixpoint vmon_outs (focus : N) (q : vmon) (o : aop papi) (expect : option message) (outs : list out) : (vmon * option message) + N :=
   match outs with
   | [] => inl (q, expect)
   | OSendAll t m :: outs' =>
       if m_response m then
-        match c10_response q t m true with inl q' => vmon_outs q' o expect outs' | inr c => inr c end
+        match c10_response focus q t m true with inl q' => vmon_outs focus q' o expect outs' | inr c => inr c end
       else
         match is_service_probe m with
-        | Some n => vmon_outs (note_probe q n t) o expect outs'
-        | None => vmon_outs q o expect outs'
+        | Some n => vmon_outs focus (note_probe q n t) o expect outs'
+        | None => vmon_outs focus q o expect outs'
         end
   | OSend t m :: outs' =>
-      if is_host_reply m then vmon_outs q o expect outs' else
-      match c10_response q t m false with
+      if is_host_reply m then vmon_outs focus q o expect outs' else
+      match c10_response focus q t m false with
       | inr c => inr c
       | inl q' =>
           match expect with
-          | Some e => if message_eqb e m then vmon_outs q' o None outs' else inr 20%N
-          | None => inr 22%N
+          | Some e => if message_eqb e m || negb (in_focus focus 20) then vmon_outs focus q' o None outs' else inr 20%N
+          | None => if in_focus focus 22 then inr 22%N else vmon_outs focus q' o None outs'
           end
       end
-  | OPoll _ f b :: outs' => vmon_outs (note_poll q f b) o expect outs'
+  | OPoll _ f b :: outs' => vmon_outs focus (note_poll q f b) o expect outs'
   | OSignal _ _ sg (PBytes n) :: outs' =>
       (* a change notification is evidence of a registration under that name (C08 ties it to a probe) *)
-      if (sg =? SIG_hostnameChanged)%N then vmon_outs (note_poll q true n) o expect outs' else vmon_outs q o expect outs'
-  | _ :: outs' => vmon_outs q o expect outs'
+      if (sg =? SIG_hostnameChanged)%N then vmon_outs focus (note_poll q true n) o expect outs' else vmon_outs focus q o expect outs'
+  | _ :: outs' => vmon_outs focus q o expect outs'
   end.
 
 Definition vmon_input (q : vmon) (o : aop papi) : vmon :=
@@ -214,18 +227,18 @@ Definition vmon_input (q : vmon) (o : aop papi) : vmon :=
   end.
 
 (* 40 after destruction a passive listener still holds records of the provider *)
-Definition vmon_step (q : vmon) (o : aop papi) (outs : list out) : vmon + N :=
+Definition vmon_step (focus : N) (q : vmon) (o : aop papi) (outs : list out) : vmon + N :=
   let q0 := vmon_input q o in
-  match vmon_outs q0 o (c11_expected q0 o) outs with
+  match vmon_outs focus q0 o (c11_expected q0 o) outs with
   | inr c => inr c
-  | inl (q1, Some _) => inr 21%N
-  | inl (q1, None) =>
+  | inl (q1, missing) =>
+      if match missing with Some _ => in_focus focus 21 | None => false end then inr 21%N else
       match o with
       | AApi PDestroy =>
           if vm_alive q1 then
             match vm_listener q1 with
             | [] => inl (mkVmon (vm_reg_names q1) (vm_host_reg q1) (vm_host_name q1) false None None false None [] None [] false (vm_now q1))
-            | _ :: _ => inr 40%N
+            | _ :: _ => soft focus 40 (mkVmon (vm_reg_names q1) (vm_host_reg q1) (vm_host_name q1) false None None false None [] None [] false (vm_now q1))
             end
           else inl q1
       | _ => inl q1
@@ -274,23 +287,23 @@ Definition vmon_final (q : vmon) : option N :=
       end
   end.
 
-Fixpoint vmon_run (q : vmon) (k : N) (ops : list (aop papi)) (outs : list (list out)) : option (N * N) :=
+Fixpoint vmon_run (focus : N) (q : vmon) (k : N) (ops : list (aop papi)) (outs : list (list out)) : option (N * N) :=
   match ops, outs with
-  | [], _ => match vmon_final q with Some c => Some (k, c) | None => None end
+  | [], _ => match vmon_final q with Some c => if in_focus focus c then Some (k, c) else None | None => None end
   | o :: ops', og :: outs' =>
-      match vmon_step q o og with
-      | inl q' => vmon_run q' (k + 1)%N ops' outs'
+      match vmon_step focus q o og with
+      | inl q' => vmon_run focus q' (k + 1)%N ops' outs'
       | inr c => Some (k, c)
       end
   | _ :: _, [] => Some (k, 4%N)
   end.
 
 (* outs: the group of the hostname constructor, then one group per operation *)
-Definition mon_provider (ops : list (aop papi)) (outs : list (list out)) : option (N * N) :=
+Definition mon_provider (focus : N) (ops : list (aop papi)) (outs : list (list out)) : option (N * N) :=
   match outs with
   | og :: outs' =>
-      match vmon_outs vmon0 (AApi PNewHost) None og with
-      | inl (q, _) => vmon_run q 0%N ops outs'
+      match vmon_outs focus vmon0 (AApi PNewHost) None og with
+      | inl (q, _) => vmon_run focus q 0%N ops outs'
       | inr c => Some (0%N, c)
       end
   | [] => Some (0%N, 4%N)
